@@ -98,6 +98,12 @@ def configs(tier):
     # a transform with exactly two workers and 85 tiles, failing on an early tile
     cfgs.append(S.MultiWcs(nimg=5, W=2, fail_item=(0,), fail_exc="runtime", max_deviations=2 if tier == "quick" else 4))
     cfgs.append(S.Transform(depth=3, W=2, fail_item=(3, 1, 0), fail_exc="oserror", max_deviations=2 if tier == "quick" else 3))
+    # an input image that cannot be LOADED: in parallel mode the dispatching process reads the images while the workers
+    # are busy or waiting, so the error surfaces between two hand-offs, with live workers
+    for k, e in ((0, "oserror"), (2, "runtime"), (3, "valueerror")):
+        cfgs.append(S.MultiTan(nimg=4, W=2, source_fail=k, fail_exc=e))
+    cfgs.append(S.MultiWcs(nimg=3, W=2, source_fail=1, fail_exc="oserror"))
+    cfgs.append(S.MultiWcs(nimg=3, W=2, source_fail=2, fail_exc="runtime"))
     # more images after the failing one than the bounded queue holds (2 x workers + 1): if the surviving
     # worker stopped early, the producer would block for ever
     cfgs.append(S.MultiTan(nimg=6, W=2, fail_item=(0,), fail_exc="valueerror"))
@@ -182,14 +188,15 @@ def _serial_entry(h):
         root = tempfile.mkdtemp(prefix="verif-c19s-", dir=stages.scratch_root())
         try:
             imgs = stages.tan_images(h.nimg)
-            ks = list(range(h.nimg)) if h.fail_item == "all" else [h.fail_item[0]]
+            ks = [] if h.fail_item is None else list(range(h.nimg)) if h.fail_item == "all" else [h.fail_item[0]]
+            sf = dict(fail_at=h.source_fail, fail_exc=h.fail_exc)
             pio = PyramidIO(root, default_format="fits")
             if isinstance(h, stages.MultiTan):
                 from toasty.multi_tan import MultiTanProcessor
 
                 for k in ks:
                     imgs[k].__class__ = stages.failing_image_class(h.fail_exc)
-                proc = MultiTanProcessor(stages.ListCollection(imgs))
+                proc = MultiTanProcessor(stages.ListCollection(imgs, **sf))
                 proc.compute_global_pixelization(Builder(pio))
                 proc.tile(pio, parallel=1)
             else:
@@ -199,7 +206,7 @@ def _serial_entry(h):
                     im.asarray()[...] = float(i + 1)
                 for k in ks:
                     imgs[k].asarray()[...] = {"runtime": -1.0, "oserror": -2.0, "valueerror": -3.0}[h.fail_exc]
-                proc = MultiWcsProcessor(stages.ListCollection(imgs))
+                proc = MultiWcsProcessor(stages.ListCollection(imgs, **sf))
                 proc.compute_global_pixelization(Builder(pio))
                 proc.tile(pio, stages._fake_reproject, parallel=1)
         finally:
